@@ -50,7 +50,37 @@ def gen_cases(gb, rng, tier):
                 for mode in modes:
                     cases.append(dict(line=genrun.case_line('dec', cfg, tname, proto, mode, enc + rest), want=list(want),
                                       restlen=len(rest), cfg=cfg, type=tname, proto=proto, mode=mode, edits=[list(map(str, e)) for e in edits],
-                                      hits=sorted(hits), nontrivial=True))
+                                      hits=sorted(hits), nontrivial=True,
+                                      # F-08a under the unchecked codec reads out of bounds (UB: debug builds abort); the model of the
+                                      # unchecked codec is the checked one, so such a case is not a correspondence case
+                                      model=not (proto == 'unchecked' and 'union-variant-retyped' in hits)))
+        # directed: an ignored field of each scalar wire type written IMMEDIATELY BEFORE each known field (state left behind by
+        # skipping -- e.g. the compact protocol parks a bool field's value in the reader -- must not leak into the next field)
+        if d['kind'] == 'struct' and tname not in no_key:
+            new_types = [('bool',), ('i32',)] if tier == 'quick' else [('bool',), ('i8',), ('i32',), ('string',), ('list', ('bool',)), ('double',)]
+            for j, fj in enumerate(d['fields']):
+                if tier == 'quick' and gengen.TTYPE.get(sch.resolve(fj['ty'])[0]) not in (13, 14, 15) and j % 3:
+                    continue        # quick: every container field, a third of the others
+                for nt in new_types:
+                    W = sch.copy()
+                    dw = W.types[tname]
+                    used = {f['id'] for f in dw['fields']}
+                    free = [i for i in genevo.NEW_IDS if i not in used]
+                    if not free:
+                        continue
+                    nf = dict(id=rng.choice(free), name='added', req='required', ty=nt, lit=None, default=None, const=None, doc=None, ann={},
+                              idl_req='required')
+                    dw['fields'].insert(j, nf)
+                    v = gengen.gen_value(rng, W, ty, 2)
+                    try:
+                        want = ('ok', gengen.show(sch, ty, genevo.view(W, sch, ty, ty, v)), gengen.show(sch, ty, genevo.view(W, sch, ty, ty, v), nan_canon=True))
+                    except genevo.ViewError as e:
+                        want = ('err', e.args[0], None)
+                    for proto in genrun.SYNC_PROTOS:
+                        enc = genref.encode(W, ty, v, genrun.ref_proto(proto))
+                        cases.append(dict(line=genrun.case_line('dec', cfg, tname, proto, 'sync', enc), want=list(want), restlen=0, cfg=cfg,
+                                          type=tname, proto=proto, mode='sync', edits=[['add-before', tname, str(fj['id']), gengen.ty_txt(nt)]],
+                                          hits=[], nontrivial=True))
         # hand-made union inputs: no field at all, two known variants
         if d['kind'] == 'union':
             vs = [x for x in d['variants'] if x['ty'] != ('void',)]
@@ -105,6 +135,7 @@ def run(chk, replay=None):
                           "by 1-4 random edits (add fields of every wire type incl. containers and structs at any position and id, remove, "
                           "retype to a different wire type, reorder, flip requiredness, add / remove / retype union variants) on the types "
                           "reachable from it x values generated under the writer schema (incl. undeclared enum numbers) x {binary, "
-                          "binary_le, compact, unchecked} sync + async schedules; plus per union: empty message, two known variants; "
+                          "binary_le, compact, unchecked} sync + async schedules; plus, directed, an ignored bool / i32 (thorough: six types) field written "
+                          "immediately before each known field; plus per union: empty message, two known variants; "
                           "expected result = view W R v computed independently (pv/genevo.py); distinct by SHA-1 of the case line",
                      extra_dist=extra)
